@@ -231,6 +231,57 @@ int main(int argc, char **argv) {
            progs, bad5, bad17, jsonEscape(why5).c_str(), jsonEscape(bad5 && first5.size() < 4000000 ? first5 : std::string()).c_str(), jsonEscape(why17).c_str(), jsonEscape(bad17 ? first17 : std::string()).c_str());
     return 0;
   }
+  // checklisting <listing.txt> <image file>: a reader's check of a listing (hexasm --instrs / xcmp -S) against the binary,
+  // from the two files alone: every line's bytes start at the listed offset, are as many as listed, and decode (ISA prefix
+  // rule) to the listed mnemonic and operand / DATA value; label lines sit at their offset; nothing but zeros in between
+  // and after; label operands "(v)" show the encoded value; a relative label operand reaches the line that declares the label
+  if (argc >= 4 && !strcmp(argv[1], "checklisting")) {
+    std::ifstream lf(argv[2]); std::stringstream ls; ls << lf.rdbuf();
+    std::ifstream bf(argv[3], std::ios::binary); std::string raw((std::istreambuf_iterator<char>(bf)), std::istreambuf_iterator<char>());
+    std::string why; uint32_t words = 0; if (raw.size() >= 4) memcpy(&words, raw.data(), 4);
+    if (raw.size() < 4 || raw.size() < 4 + 4 * (size_t)words) why = "binary shorter than its header announces";
+    std::string img = why.empty() ? raw.substr(4, 4 * (size_t)words) : std::string();
+    std::vector<Line> lines = parseListing(ls.str());
+    std::map<std::string, unsigned long> labelAt;
+    for (auto &l : lines) { if (l.size == 0) { std::string n = l.text; if (n.compare(0, 5, "FUNC ") == 0 || n.compare(0, 5, "PROC ") == 0) n = n.substr(5); labelAt[n] = l.off; } }
+    static const char *MN[16] = {"LDAM", "LDBM", "STAM", "LDAC", "LDBC", "LDAP", "LDAI", "LDBI", "STAI", "BR", "BRZ", "BRN", "?", "OPR", "PFIX", "NFIX"};
+    static const char *OP[4] = {"BRB", "ADD", "SUB", "SVC"};
+    size_t pos = 0, checked = 0;
+    for (auto &l : lines) {
+      if (!why.empty()) break;
+      std::string at = " (line '" + l.text + "' at offset " + std::to_string(l.off) + ")";
+      if (l.text.compare(0, 7, "PADDING") == 0) continue;   // trailing padding: covered by the "zeros after the last item" check (its offset column is not set by the layout)
+      if (l.size == 0) { if (l.off < pos) why = "label listed before the end of the previous item" + at; continue; }
+      if (l.off < pos) { why = "listed offset lies before the end of the previous item" + at; break; }
+      for (size_t q = pos; q < l.off && q < img.size(); q++) if (img[q] != 0) { why = "non-zero byte between listed items at offset " + std::to_string(q); break; }
+      if (!why.empty()) break;
+      if (l.off + l.size > img.size()) { why = "listed item lies outside the image" + at; break; }
+      const uint8_t *b = reinterpret_cast<const uint8_t *>(img.data()) + l.off;
+      std::istringstream ts(l.text); std::string mn, opnd, paren; ts >> mn >> opnd >> paren;
+      if (mn == "DATA") {
+        uint32_t w; memcpy(&w, b, 4);
+        if (l.size != 4 || (l.off & 3) || w != (uint32_t)strtoll(opnd.c_str(), 0, 10)) why = "DATA word in the image differs from the listing" + at;
+      } else {
+        unsigned opc = 0; uint32_t operand = 0;
+        if (l.size < 1 || l.size > 8 || !isa_decode_prefix(b, l.size, &opc, &operand)) why = "bytes at the listed offset are not PFIX/NFIX* + instruction" + at;
+        else if (mn != MN[opc & 15]) why = std::string("image holds ") + MN[opc & 15] + " where the listing says " + mn + at;
+        else if (mn == "OPR") { if (operand > 3 || opnd != OP[operand]) why = "OPR operand differs" + at; }
+        else if (!paren.empty()) {   // label operand: "name (value)"
+          long shown = strtol(paren.c_str() + 1, 0, 10);
+          if ((uint32_t)shown != operand) why = "listing shows operand " + std::to_string(shown) + ", image encodes " + std::to_string((int32_t)operand) + at;
+          else if (labelAt.count(opnd)) {
+            bool rel = mn == "BR" || mn == "BRZ" || mn == "BRN" || mn == "LDAP" || mn == "LDAI" || mn == "LDBI" || mn == "STAI";
+            long target = (long)labelAt[opnd];
+            if (rel ? ((long)l.off + l.size + (long)(int32_t)operand != target) : ((long)(int32_t)operand * 4 != target)) why = "label operand does not refer to the listed position of " + opnd + at;
+          }
+        } else if ((uint32_t)strtoll(opnd.c_str(), 0, 10) != operand) why = "listing shows operand " + opnd + ", image encodes " + std::to_string((int32_t)operand) + at;
+      }
+      pos = l.off + l.size; checked++;
+    }
+    for (size_t q = pos; why.empty() && q < img.size(); q++) if (img[q] != 0) why = "non-zero byte after the last listed item at offset " + std::to_string(q);
+    printf("{\"ok\": %s, \"lines\": %zu, \"items_checked\": %zu, \"why\": \"%s\"}\n", why.empty() ? "true" : "false", lines.size(), checked, jsonEscape(why).c_str());
+    return why.empty() ? 0 : 1;
+  }
   // emit <file.S> <out.bin> <out.lst>: image and listing through the in-process pipeline (loadBuffer), for comparison with
   // what the hexasm executable (hexasm.cpp: openFile, argument handling, emitBin / emitProgramText) produces for the same file
   if (argc >= 5 && !strcmp(argv[1], "emit")) {
